@@ -68,6 +68,10 @@ impl AsyncWrite for Shared {
 }
 
 fn serve(seq: &[R], plan: &Plan, pending: Vec<usize>) -> Outcome {
+    serve_w(seq, plan, pending, usize::MAX)
+}
+
+fn serve_w(seq: &[R], plan: &Plan, pending: Vec<usize>, max_write: usize) -> Outcome {
     let log: Log = Arc::new(Mutex::new(vec![]));
     let parts = build_app(log.clone()).verif_into_parts();
     let mut bytes = vec![];
@@ -75,7 +79,9 @@ fn serve(seq: &[R], plan: &Plan, pending: Vec<usize>) -> Outcome {
         bytes.extend(r.bytes());
     }
     let head: Vec<u8> = bytes[..bytes.len().min(160)].to_vec();
-    let io = Arc::new(Mutex::new(AsyncCut::new(bytes, plan.cuts.clone(), pending)));
+    let mut cut = AsyncCut::new(bytes, plan.cuts.clone(), pending);
+    cut.max_write = max_write;
+    let io = Arc::new(Mutex::new(cut));
     let io2 = io.clone();
     let _call = crate::report::enter(&head);
     let r = std::panic::catch_unwind(std::panic::AssertUnwindSafe(|| {
@@ -104,5 +110,10 @@ pub fn run(quick: bool) -> Stats {
     run_seqs(&mut st, "tokio pairs", pairs.clone(), false, true, false, &plain, "tokio");
     run_seqs(&mut st, "tokio pairs, pending polls", pairs, false, false, false, &pend_many, "tokio");
     run_seqs(&mut st, "tokio stale-state triples", stale_state_triples(), false, false, false, &plain, "tokio");
+    // the connection takes only a few bytes per write (short writes): every response must still arrive whole
+    let short7 = |seq: &[R], plan: &Plan| serve_w(seq, plan, vec![], 7);
+    let short1 = |seq: &[R], plan: &Plan| serve_w(seq, plan, vec![], 1);
+    run_seqs(&mut st, "tokio singles, short writes", singles().into_iter().map(|r| vec![r]).collect(), false, false, false, &short7, "tokio");
+    run_seqs(&mut st, "tokio stale-state triples, one byte per write", stale_state_triples(), false, false, false, &short1, "tokio");
     st
 }
